@@ -50,7 +50,9 @@ def prerequisite_collection(ctx, o, ps: PassShape):
     elt, tgt, it, ifs = pt['parts']
     okf = True
     for c in ifs:
-        if not match(f"{tgt.id}.{ps.end_attr} is not None", c):
+        # `not x.end is None` (a guard clause `if x.end is None: continue` turned into a filter) says the same as `x.end is not None`
+        if not match(f"{tgt.id}.{ps.end_attr} is not None", c) and \
+                facts.cond_is(c, True, f"{tgt.id}.{ps.end_attr} is None", want=False) is None:
             okf = False
             o.refute(ps.f, pt['stmt'], c, f"dependencies are filtered by `{src(c)}` before bounding the task (only `is not None` is allowed)")
     cn = ps.cfg.node_of(pt['stmt'])
